@@ -60,6 +60,7 @@ Lo == [c \in IntCats |-> CASE c = "i8" -> 8 [] c = "i16" -> 6 [] c = "i32" -> 4
 Hi == [c \in IntCats |-> CASE c = "i8" -> 12 [] c = "u8" -> 14 [] c = "i16" -> 16 [] c = "u16" -> 18
                            [] c = "i32" -> 20 [] c = "u32" -> 22 [] c \in {"il", "i64"} -> 24 [] OTHER -> 26]
 InRange(v, c) == v >= Lo[c] /\ v <= Hi[c]
+Min2(a, b) == IF a < b THEN a ELSE b
 InLong(v) == v \in 2..24
 InULong(v) == v \in 10..26
 
@@ -217,8 +218,11 @@ PyAccept(arg, c) ==
 Acceptable(T, call) ==
   \E j \in 1..Len(T) : /\ Accepts(T[j], N(call)) /\ SelfOK(T[j], call.self)
                        /\ \A i \in 1..N(call) : PyAccept(call.a[i], T[j].p[i])
+\* some overload has, at the position of an integer argument, an integer parameter that cannot hold
+\* it (whatever the count): the rejected call may then report OverflowError instead of TypeError
 SomeIntOut(T, call) ==
-  \E j \in 1..Len(T) : Accepts(T[j], N(call)) /\ IntOut(call, T[j])
+  \E j \in 1..Len(T) : \E i \in 1..Min2(N(call), Len(T[j].p)) :
+     call.a[i].t = "int" /\ T[j].p[i] \in IntCats /\ ~InRange(call.a[i].v, T[j].p[i])
 
 None == [k |-> "none", j |-> 0]
 Expected(T, call) ==
@@ -237,7 +241,6 @@ Expected(T, call) ==
 ---------------------------------------------------------------------------
 (* MECHANISM *)
 Max(A) == CHOOSE x \in A : \A y \in A : y <= x
-Min2(a, b) == IF a < b THEN a ELSE b
 
 MapSet(T, n) == {j \in 1..Len(T) : Accepts(T[j], n)}                  \* map_sets[n]
 KeysOf(T) == {n \in 0..MaxParams : MapSet(T, n) # {}}
@@ -330,7 +333,9 @@ Try(o, call, g, mode) ==
   IN IF ~SelfOK(o, call.self) THEN "fail"
      \* a remap without parameters writes no parse at all: nothing checks the count of the arguments
      ELSE IF Len(o.p) = 0 /\ "extra-args" \notin Fixed THEN "run"
-     ELSE IF n < g.lo \/ n > Min2(g.hi, Len(o.p)) THEN "fail"
+     ELSE IF n > Min2(g.hi, Len(o.p)) THEN "fail"
+     \* too few arguments: PyArg_ParseTupleAndKeywords converts those given before it misses one
+     ELSE IF n < g.lo THEN (IF mode = "var" /\ r1 = "failovf" THEN "failovf" ELSE "fail")
      ELSE IF r1 # "ok" THEN r1
      ELSE IF \E i \in 1..np : r2[i] = "raise" THEN "raise"
      ELSE IF \E i \in 1..np : ~P3(o.p[i], call.a[i]) THEN "fail"
